@@ -7,7 +7,7 @@ CONSTANTS
   MaxStart = 1
   ParentCancels = TRUE
   Presents = {{"start","run","stop"}}
-  RunModes = {"any","idle","timer"}
+  RunModes = {"any"}
   GuardNilCancel = @@GUARD@@
 INIT Init
 NEXT Next
